@@ -635,7 +635,7 @@ func c01Contains(c *Ctx, a *avlAnchors) {
 					}
 				}
 				switch {
-				case ret.Key() == cur.Key() && curNil:
+				case (ret.Key() == cur.Key() || ret.IsNil()) && curNil:
 					// "stepped off the tree": the current node is nil and is returned as the not-found answer. That the step
 					// which got here went to the side the value belongs on is descent-agreement's business (every descent
 					// follows the comparator, or goes to the only child there is).
